@@ -17,7 +17,11 @@ RULE = ("one case = a history of create / hand-made recording / save (optionally
         "snapshot; streams: main, readonly, nested (a/full inside a), long (a writable transient cassette - sometimes with a "
         "second writer on its prefix - holds 4-10 recordings, i.e. more than one listing page of the fake client API, when "
         "it is closed), slashes (key prefixes, categories and hand-made ids that begin with '/', are '/', hold '//', end "
-        "in '/' or are empty, next to foreign objects at the places such keys would escape to), 14 fixed scenarios; "
+        "in '/' or are empty, next to foreign objects at the places such keys would escape to), exits (every cassette of the "
+        "case is closed or left as a context manager at the end, the `with` block being left normally, through an Exception "
+        "raised by its body or through an interrupt that is not an Exception), 14 fixed scenarios + 16 fixed-exits (every "
+        "read_only x transient combination x close() / block left normally / through an Exception / through an interrupt, "
+        "on a prefix that holds recordings of a writer); "
         "non-trivial = at least one bucket mutation and at least one of: read-only call, close of a "
         "transient cassette, interrupted save; distinct = distinct case")
 ASSUMPTIONS = ["assertions enabled (no python -O): the read-only guard is an assert statement",
@@ -52,6 +56,9 @@ SLASH_FOREIGN = ["/api/v1/plans/20200227/x", "/abs/full/Op/20200227/f", "abs/ful
 # API when it is closed (harness/impl/fake_s3.py PAGE_SIZE = 3: S3 may answer any listing with fewer keys than asked for
 # and IsTruncated, so clean-up code has to follow the continuation whatever the page size is)
 FAKE_PAGE_SIZE = 3
+# how a `with cassette:` block is left: normally (None), through an Exception raised by the body ("error"), through an
+# exception that is not an Exception subclass, like KeyboardInterrupt ("interrupt")
+EXIT_MODES = [None, "error", "interrupt"]
 LONG_COUNTS = [FAKE_PAGE_SIZE + 1, FAKE_PAGE_SIZE + 2, 2 * FAKE_PAGE_SIZE, 2 * FAKE_PAGE_SIZE + 1, 3 * FAKE_PAGE_SIZE + 1]
 
 
@@ -168,6 +175,21 @@ def gen_case(rng, tier, stream):
             ops.append(dict(op="raw_put", key=k, body="foreign again"))
     if stream == "long":
         ops.append(dict(op=rng.choice(["close", "exit"]), cas=0))
+    if stream == "exits":
+        # every cassette of the case is closed / left as a context manager at the end, in a random order; a `with` block is
+        # left normally or through an exception raised by its body (EXIT_MODES); the exits drawn above likewise
+        for o in ops:
+            if o["op"] == "exit":
+                o["raises"] = rng.choice(EXIT_MODES)
+        order = list(range(len(cass)))
+        rng.shuffle(order)
+        for ci in order:
+            if rng.random() < 0.25:
+                ops.append(dict(op="close", cas=ci))
+            else:
+                ops.append(dict(op="exit", cas=ci, raises=rng.choice(EXIT_MODES)))
+            if rng.random() < 0.4:
+                ops.append(dict(op="list", cas=rng.randrange(len(cass)), cat=rng.choice(cats)))
     # the ids of residues are "known from elsewhere": read them through every read-only view at the end
     for ci, c in enumerate(cass):
         if c["read_only"] and saved and rng.random() < 0.8:
@@ -226,6 +248,26 @@ def fixed_slashes(p, cat, p2):
     return dict(cassettes=cass, ops=ops, categories=sorted(set(["Op", cat])), stream="fixed-slashes")
 
 
+def fixed_exits(ro, tr, how, k):
+    """a writer stores two recordings under prefix p (one more under a neighbour prefix), then a cassette on p in the
+    read_only / transient combination (ro, tr) is closed (how = "close") or used as a context manager whose block is left
+    normally (None), through an Exception ("error") or through a non-Exception interrupt ("interrupt"); twice"""
+    p, p2 = [("a", "ab"), ("", "a"), ("a/b", "a"), ("ab", "a")][k % 4]
+    cass = [W(p, False), W(p2, False), W(p, tr, read_only=ro), W(p, False, read_only=True)]
+    leave = dict(op="close", cas=2) if how == "close" else dict(op="exit", cas=2, raises=how)
+    ops = [dict(op="raw_put", key=key, body="foreign") for key in FOREIGN]
+    ops += [dict(op="create", cas=0, slot=0, cat="Op", day=0, data=[["k", pv.i(1)]], meta=[["m", pv.i(2)]]),
+            dict(op="save", cas=0, slot=0, ratio=None, crash=None),
+            dict(op="create", cas=0, slot=1, cat="OpX", day=1, data=[["k", pv.s("x")]], meta=[]),
+            dict(op="save", cas=0, slot=1, ratio=None, crash=None),
+            dict(op="create", cas=1, slot=2, cat="Op", day=0, data=[["k", pv.i(3)]], meta=[["m", pv.i(4)]]),
+            dict(op="save", cas=1, slot=2, ratio=None, crash=None),
+            dict(op="list", cas=2, cat="Op"), dict(leave),
+            dict(op="list", cas=3, cat="Op"), dict(op="get", cas=3, id="Op/20200227/%032x" % 1),
+            dict(op="get", cas=1, id="Op/20200227/%032x" % 3), dict(leave), dict(op="list", cas=1, cat="Op")]
+    return dict(cassettes=cass, ops=ops, categories=CATS, stream="fixed-exits")
+
+
 def generate(rng, tier):
     n = 260 if tier == "quick" else 2600
     cases = []
@@ -264,12 +306,23 @@ def generate(rng, tier):
     for p, cat, p2 in (("svc", "/api/v1/plans", "nb"), ("/abs", "Op", "abs"), ("a//b", "a//b", "a"), ("", "/x", "/"),
                        ("svc", "", "sv"), ("/", "/", "//"), ("a/", "Op//", "a")):
         cases.append(fixed_slashes(p, cat, p2))
+    # every read_only / transient combination x every way of closing (close(), `with` block left normally / through an
+    # Exception / through a non-Exception interrupt)
+    k = 0
+    for ro in (True, False):
+        for tr in (True, False):
+            for how in ["close"] + EXIT_MODES:
+                cases.append(fixed_exits(ro, tr, how, k))
+                k += 1
     # separate generators: the main streams above draw the same cases as before these streams existed
     rng_long, rng_slash = (__import__("random").Random(rng.getrandbits(64)) for _ in range(2))
     for _ in range(12 if tier == "quick" else 120):
         cases.append(gen_case(rng_long, tier, "long"))
     for _ in range(24 if tier == "quick" else 240):
         cases.append(gen_case(rng_slash, tier, "slashes"))
+    rng_exit = __import__("random").Random(rng.getrandbits(64))
+    for k in range(30 if tier == "quick" else 300):
+        cases.append(gen_case(rng_exit, tier, "exits"))
     return cases
 
 
@@ -285,17 +338,34 @@ def gitems(items):
 EXN = {"AssertionError", "NoSuchRecording", "EncodeError", "DecodeError", "ShapeError", "InjectedCrash"}
 
 
-def gmut(e):
-    return "(%s %s)" % ("MPut" if e[0] == "put" else "MDel", gstr(e[1]))
+class KeyNames(object):
+    """The bucket keys of a case are listed again after every call: each distinct key text is bound once per case
+    (`let k3 := U "..." in`) and referred to by name (parsing a string literal is what the elaboration of a shard spends
+    its time on)."""
+    def __init__(self):
+        self.names = {}
+
+    def __call__(self, key):
+        if key not in self.names:
+            self.names[key] = "k%d" % len(self.names)
+        return self.names[key]
+
+    def wrap(self, term):
+        lets = "".join("let %s := %s in " % (n, gstr(k)) for k, n in self.names.items())
+        return "(%s%s)" % (lets, term) if lets else term
 
 
-def gobs(o):
+def gmut(e, kn=gstr):
+    return "(%s %s)" % ("MPut" if e[0] == "put" else "MDel", kn(e[1]))
+
+
+def gobs(o, kn=gstr):
     res = o["res"]
     unknown = res != "ok" and res not in EXN
     return "(Obs %s %s %s %s %s)" % (
         gbool(unknown), "None" if res == "ok" or unknown else "(Some %s)" % res,
-        gopt(gstr(o["id"]) if "id" in o else None), glist([gmut(e) for e in o["log"]]),
-        glist([gstr(k) for k, _ in o["objs"]]))
+        gopt(gstr(o["id"]) if "id" in o else None), glist([gmut(e, kn) for e in o["log"]]),
+        glist([kn(k) for k, _ in o["objs"]]))
 
 
 def gq(fr):
@@ -307,6 +377,7 @@ def to_gallina(case, obs):
         return "Case [] [(RCall 0%nat CClose, Obs true None None [] [])]"
     slots = {}
     terms = []
+    kn = KeyNames()
     for op, o in zip(case["ops"], obs["ops"]):
         kind = op["op"]
         if kind == "raw_put":
@@ -353,8 +424,8 @@ def to_gallina(case, obs):
         if o["res"] == "no-slot":
             t = "RSkip"
             o = dict(o, res="ok")
-        terms.append("(%s, %s)" % (t, gobs(o)))
-    return "Case %s %s" % (glist([gcfg(c) for c in case["cassettes"]]), glist(terms))
+        terms.append("(%s, %s)" % (t, gobs(o, kn)))
+    return kn.wrap("Case %s %s" % (glist([gcfg(c) for c in case["cassettes"]]), glist(terms)))
 
 
 def explain(case, obs):
@@ -377,7 +448,8 @@ def direct(case, obs):
             continue
         c = cass[op["cas"]]
         own = ROOT + norm(c["prefix"])
-        where = "op #%d %s on cassette %s" % (n, kind, json.dumps(c, sort_keys=True))
+        how = " (with block left through an exception of its body: %s)" % op["raises"] if op.get("raises") else ""
+        where = "op #%d %s%s on cassette %s" % (n, kind, how, json.dumps(c, sort_keys=True))
         if o["res"].startswith("other:"):
             fails.append(("unexpected-exception", "%s raised %s %s" % (where, o["res"], o.get("msg"))))
         # (1) read-only cassettes never mutate, and refuse create / save
@@ -457,6 +529,8 @@ def features(case):
         if op["op"] in ("close", "exit"):
             c = case["cassettes"][op["cas"]]
             f.add("close:ro=%d,tr=%d" % (c["read_only"], c["transient"]))
+            if op.get("raises"):
+                f.add("with-block-left-through-%s:ro=%d,tr=%d" % (op["raises"], c["read_only"], c["transient"]))
     return f
 
 
@@ -485,7 +559,7 @@ def search_harder(rng, bad_cases):
 
 MANIFEST = dict(
     design_ref='6/C15',
-    text="Coq theorems over all histories of calls (create, save incl. a crash after each single bucket mutation, get, get_metadata, list, close, context exit) on any number of S3 cassettes (all read_only/transient/prefix combinations) sharing one bucket: read-only cassettes never change bucket or log and refuse create/save; every mutated key lies under root+normalised prefix and nothing outside changes; closing a writable transient cassette removes every key it ever wrote and only keys under its full/ and metadata/ prefixes, leaving cassettes with path-independent prefixes (a vs ab) untouched, other closes are no-ops; after every single mutation of every save every metadata object has a decodable full object (discoverable => fetchable), incl. re-saves. Model tied to /repo on every run: random histories on real S3TapeCassettes over a fake bucket (paging client API) with foreign objects and crash residues, incl. transient cassettes holding several listing pages of recordings when closed and slash-shaped prefixes / categories, comparing outcome kind, mutation log and key set after every call; direct predicate on the implementation's own log/keys plus lookup+fetch through a fresh cassette at every crash point of every save.",
+    text="Coq theorems over all histories of calls (create, save incl. a crash after each single bucket mutation, get, get_metadata, list, close, context exit - on the implementation side normal and through an exception of the block's body, the same call in the model) on any number of S3 cassettes (all read_only/transient/prefix combinations) sharing one bucket: read-only cassettes never change bucket or log and refuse create/save; every mutated key lies under root+normalised prefix and nothing outside changes; closing a writable transient cassette removes every key it ever wrote and only keys under its full/ and metadata/ prefixes, leaving cassettes with path-independent prefixes (a vs ab) untouched, other closes are no-ops; after every single mutation of every save every metadata object has a decodable full object (discoverable => fetchable), incl. re-saves. Model tied to /repo on every run: random histories on real S3TapeCassettes over a fake bucket (paging client API) with foreign objects and crash residues, incl. transient cassettes holding several listing pages of recordings when closed and slash-shaped prefixes / categories, comparing outcome kind, mutation log and key set after every call; direct predicate on the implementation's own log/keys plus lookup+fetch through a fresh cassette at every crash point of every save.",
     note='Trusted: Coq kernel + vm_compute; hand-written model; fake bucket behind the real S3BasicFacade (atomic per-object mutations, crash = refused mutation); zlib/json.loads/quoted-printable are section oracles with round-trip hypotheses (json.loads o json.dumps = id asked on well-formed trees only; all of them theorems for the concrete parser / simple codec / identity zlib: C15_discoverable_complete_concrete has no oracle premise); assertions enabled. Lookup itself is modelled only as a read (C10 owns it).',
     technique='Coq proof (induction over histories, bucket invariants) + history correspondence by vm_compute + crash-point probing',
 )
